@@ -1252,9 +1252,14 @@ class NinjaBackend(backends.Backend):
 
         write = True
         if os.path.exists(pickle_abs):
-            with open(pickle_abs, 'rb') as p:
-                old = pickle.load(p)
-            write = old != scaninfo
+            try:
+                with open(pickle_abs, 'rb') as p:
+                    old = pickle.load(p)
+                write = old != scaninfo
+            except Exception:
+                # Left over from an interrupted run or from another version
+                # of Meson: it is only a cache, write it again.
+                write = True
 
         if write:
             with open(pickle_abs, 'wb') as p:
